@@ -268,11 +268,17 @@ def _void_with_children(fl):
 
 def shards(tier):
     quick = tier == "quick"
-    return [{"kind": "hyp", "n": 3000 if quick else 40000} for _ in range(16)]
+    return [{"kind": "hyp", "n": 3000 if quick else 40000} for _ in range(16)] + [{"kind": "long"}]
 
 
 def run_shard(desc, seed, tier):
     acc = Acc()
+    if desc["kind"] == "long":
+        for text in soup.long_docs():
+            case = {"text": text, "container": None, "scripting": False, "namespace": True}
+            acc.add(case, check_case(case))
+        return acc
+
     strat = st.tuples(soup.soup_text(max_items=40), st.one_of(st.none(), st.none(), st.sampled_from(soup.CONTEXTS)), st.booleans(), st.booleans())
 
     def fn(x):
